@@ -4,6 +4,8 @@ import (
 	"encoding/json"
 	"fmt"
 	"math/rand"
+	"net/http"
+	"net/url"
 	"os"
 	"runtime"
 	"sync"
@@ -55,3 +57,7 @@ func loadReplay(c *ctx, into any) {
 }
 
 var _ = atomic.AddInt64
+
+func httptestRequest(host, path string) *http.Request {
+	return &http.Request{Host: host, URL: &url.URL{Path: path}, Header: http.Header{}}
+}
